@@ -14,20 +14,20 @@ from ..sysdriver import gen_model, run_tlc_judge, with_solver, legal
 from ..tlc import MachineryError
 from ..util import pmap, quiet, split
 
-OPTS = {'storage': ['dense', 'rowscols', 'csc', 'matfree'], 'cyc_frac': .25, 'ncomp': None}
+OPTS = {'storage': ['dense', 'rowscols', 'csc', 'matfree'], 'cyc_frac': .25, 'ncomp': None, 'bil': .3}
 LNS = [('runonce', {}), ('lnbgs', {}), ('lnbj', {}), ('krylov', {}), ('direct', {'assemble_jac': False})]
 
 
 def totals_logged(md, ref, mode, scaled, log):
     """compute_totals on the declared variables of interest while logging which components take part in each
     root linear solve; returns blocks (quantised) and the per-solve log"""
-    Aff, MF, Imp = ob.classes()
+    Aff, MF, Imp, Bil, MFBil = ob.classes()
     p = ob.build(md, {'mode': mode})
     p.run_model()
     cur = {'exec': None}
     solves = []
     orig = {}
-    for cls in (Aff, MF, Imp):
+    for cls in (Aff, MF, Imp, Bil, MFBil):
         for meth in ('_solve_linear', '_apply_linear'):
             f = getattr(cls, meth)
             orig[(cls, meth)] = f
@@ -134,7 +134,7 @@ def _worker(seeds):
 
 def run(ctx):
     quick = ctx.tier == 'quick'
-    n = 120 if quick else 1800
+    n = 220 if quick else 2600
     base = 9000049 * (1 + ctx.seed % 1000)
     res = [r for rs in pmap(_worker, [c for c in split(list(range(base, base + n)), 48) if c]) for r in rs]
     for r in res:
